@@ -123,13 +123,13 @@ def poison(x, depth=0):
             poison(y, depth + 1)
 
 
-def stream_sequence(res, execnet, rng, triples):
+def stream_sequence(res, execnet, rng, triples, kind=None):
     import os
     import tempfile
 
     blob = b"".join(t[2] for t in triples)
     prefix = rng.choice((b"", b"HEADER-OF-THE-APPLICATION\n"))
-    kind = rng.choice(("bytesio", "buffered_file", "raw_file", "pipe_raw"))
+    kind = kind or rng.choice(("bytesio", "buffered_file", "raw_file", "pipe_raw"))
     path = None
     try:
         if kind == "bytesio":
@@ -244,6 +244,13 @@ def run_shard(spec):
             except BaseException as e:  # noqa
                 res.violation(f"reload-raises:{type(e).__name__}", f"{e} for {short(v)}")
                 continue
+        if i == 2:
+            # payloads beyond 64 KiB read from real files (an implementation may take those piecewise): same types, hashable
+            # where they are keys or members
+            bigs = [b"b" * 70000, "s" * 70000, {b"k" * 66000: ("t" * 66000,)}, (b"x" * 300000, frozenset([b"m" * 65537])), b"e" * 65536, b"o" * 65537]
+            for kind_ in ("buffered_file", "raw_file"):
+                stream_sequence(res, execnet, rng, [(x, values.canon(x), codec.encode(x)) for x in bigs], kind=kind_)
+                res.count("big_payload_stream_sequences")
         # several values written to one stream one after the other are read back one by one (each load stops at its STOP)
         if i % 40 == 1 and len(refb) < 20000 and not over:
             extras = [x for x in (g.value(2), g.value(2)) if not digits_over_limit(x)]
